@@ -85,6 +85,22 @@ def spellings(label, m):
     return out
 
 
+class EscapedInList(Shape):
+    """[{'\\path': ['A', 'B'], 'key': s1}, {'\\path': ['A']}, s2]: escaped literal mappings (several items / one item) as
+    items of a list argument, next to a scalar."""
+
+    def make(self, ip, name):
+        a = LDict([(C("\\path"), LList([C("A"), C("B")], fresh=False)), (C("key"), Scalar().make(ip, name + "_s1"))], fresh=False)
+        b = LDict([(C("\\path"), LList([C("A")], fresh=False))], fresh=False)
+        return LList([a, b, Scalar().make(ip, name + "_s2")], fresh=False)
+
+
+def Unescaped(val):
+    """The literal list the escaped spelling of EscapedInList stands for."""
+    a, b, s = val
+    return [{"path": a["\\path"], "key": a["key"]}, {"path": b["\\path"]}, s]
+
+
 TYPE_ARGS = [("int", int), ("STR", str), ("Dict", dict), ("map", dict), ("float", float), ("bool", bool), ("list", list)]
 
 
@@ -119,6 +135,8 @@ def family():
                     out.append((key, Scalar(), cls, m, ("one",)))
                     if m in ("in_", "not_in") or names == ["keys"]:
                         out.append((key, ScalarSeq(), cls, m, ("one",)))
+                    if key == spellings(label, m)[0] and m in ("in_", "not_in") and cname == "Value":
+                        out.append((key, EscapedInList(), cls, m, ("escaped-list",)))
                     if key == spellings(label, m)[0]:
                         # a literal mapping as the single argument - also one whose only key is the parameter's name: it
                         # is the value to compare with, never a by-name call
@@ -143,6 +161,8 @@ def Expected(spec, cls, m, how):
         return f(*how[1])
     if how[0] == "star":
         return f(*val)
+    if how[0] == "escaped-list":
+        return f(Unescaped(val))
     if how[0] == "one":
         return f(val)
     if how[0] == "list":
@@ -160,7 +180,7 @@ contract(
         "for v in spec_val":
             lambda k, xs, new_spec_val: len(new_spec_val) == k and is_prefix(new_spec_val, xs),
     },
-    serves=["C09", "C16"],     # C16: every store the parser executes targets objects it created (the spec argument is not fresh)
+    serves=["C09", "C16", "C17"],     # C17: data-path specs and escaped literals inside arguments; C16: every store the parser executes targets objects it created (the spec argument is not fresh)
     inline_at_calls=True,      # callers (the round-trip contracts) run the parser's body on their own symbolic value
 )
 
